@@ -63,7 +63,7 @@ static void trk_add(void *p) {
             return;
         }
     }
-    fprintf(stdout, "xdrv: tracking table full\n"); _exit(3);
+    fprintf(stderr, "xdrv: tracking table full\n"); _exit(3);
 }
 static int trk_del(void *p) {
     size_t h = ((uintptr_t)p >> 4) * 0x9E3779B97F4A7C15ull >> 44;
@@ -129,7 +129,10 @@ void __ubsan_on_report(void) { san_hit |= 2; }
 
 /* every line a sanitizer runtime prints (ASan, UBSan, MSan) passes through this weak hook of sanitizer_common */
 #ifdef XDRV_SAN
-void __sanitizer_on_print(const char *str) { if (str && (strstr(str, "Sanitizer") || strstr(str, "runtime error"))) san_hit |= 8; }
+void __sanitizer_on_print(const char *str) {
+    if (!str || strstr(str, "failed to allocate")) return;      /* allocator_may_return_null=1: an oversized request returns NULL with this warning - not a memory error */
+    if (strstr(str, "Sanitizer") || strstr(str, "runtime error")) san_hit |= 8;
+}
 #endif
 
 /* C16: dependence on uninitialised stack shows as a result that changes with what happened to be there: optionally scribble the stack below
@@ -180,24 +183,31 @@ extern const fn_t fntab[]; extern const int nfntab;
 extern const op_t optab[]; extern const int noptab;
 
 static int errfd = -1;
+static FILE *proto;      /* the protocol stream: a private duplicate of the original fd 1; fd 1 and fd 2 themselves are captured (a library that writes to a
+                            standard stream must not be able to corrupt the framing, and the write is an observable: F_STDERR) */
 
 int main(int argc, char **argv) {
     (void)argc; (void)argv;
-    setvbuf(stdout, NULL, _IOFBF, 1 << 20);
+    proto = fdopen(dup(1), "w");
+    if (!proto) return 6;
+    setvbuf(proto, NULL, _IOFBF, 1 << 20);
     if (getenv("XDRV_STACKFILL")) stackfill = atoi(getenv("XDRV_STACKFILL")) & 255;
     const char *loc = getenv("XDRV_LOCALE");
     if (loc && *loc) { if (!setlocale(LC_ALL, loc)) { fprintf(stderr, "xdrv: cannot set locale %s\n", loc); return 5; } }
 #ifndef XDRV_SAN
     errfd = memfd_create("xdrv_stderr", 0);
-    if (errfd >= 0) { dup2(errfd, 2); }
+    if (errfd >= 0) { dup2(errfd, 2); dup2(errfd, 1); }
     setvbuf(stderr, NULL, _IONBF, 0);
+#else
+    { int nfd = open("/dev/null", O_WRONLY); if (nfd >= 0) { dup2(nfd, 1); close(nfd); } }
 #endif
+    setvbuf(stdout, NULL, _IONBF, 0);
     XRayInit();
     load_builtin();
     for (;;) {
         uint32_t hdr[5]; char name[64];
         rd(hdr, sizeof hdr);
-        if (hdr[0] != 0x31515258u) { fprintf(stdout, "bad magic\n"); return 4; }
+        if (hdr[0] != 0x31515258u) { fprintf(stderr, "bad magic\n"); return 4; }
         uint32_t opcode = hdr[1], mode = hdr[2], n = hdr[3], ncols = hdr[4];
         if (opcode == 9) return 0;
         rd(name, 64);
@@ -221,7 +231,7 @@ int main(int argc, char **argv) {
         if (opcode == 0) { for (int k = 0; k < nfntab; k++) if (!strcmp(fntab[k].name, name)) { f = &fntab[k]; break; } }
         else if (opcode == 1) { for (int k = 0; k < noptab; k++) if (!strcmp(optab[k].name, name)) { op = &optab[k]; break; } }
         if (!f && !op) {
-            uint32_t r[2] = { 0x31535258u, 0xFFFFFFFFu }; fwrite(r, 4, 2, stdout); fflush(stdout); free(out); continue;
+            uint32_t r[2] = { 0x31535258u, 0xFFFFFFFFu }; fwrite(r, 4, 2, proto); fflush(proto); free(out); continue;
         }
         int want_msg = mode & 4, m = mode & 3;
         trk_trace = (mode & 8) != 0;
@@ -269,10 +279,10 @@ int main(int argc, char **argv) {
             pread(errfd, b, end, 0); blob_printf("STDERR\t"); blob_add(b, end); free(b);
         }
         if (errfd >= 0) { ftruncate(errfd, 0); lseek(errfd, 0, SEEK_SET); }
-        uint32_t r[2] = { 0x31535258u, n }; fwrite(r, 4, 2, stdout);
-        fwrite(out, sizeof *out, n, stdout);
-        uint32_t bl = (uint32_t)bloblen; fwrite(&bl, 4, 1, stdout); fwrite(blob, 1, bloblen, stdout);
-        fflush(stdout);
+        uint32_t r[2] = { 0x31535258u, n }; fwrite(r, 4, 2, proto);
+        fwrite(out, sizeof *out, n, proto);
+        uint32_t bl = (uint32_t)bloblen; fwrite(&bl, 4, 1, proto); fwrite(blob, 1, bloblen, proto);
+        fflush(proto);
         free(out);
     }
 }
